@@ -407,7 +407,8 @@ pub fn sizes_reserve(kind: u8, fam: u8, n0: usize, cap: usize, ns: u8, len: usiz
     match class {
         0 => kani::assume(n <= 40),
         1 => kani::assume(n > 40 && n <= shim::LIMIT - 64),
-        _ => kani::assume(n > shim::LIMIT - 64),
+        2 => kani::assume(n > shim::LIMIT),
+        _ => kani::assume(n > shim::LIMIT - 64 && n <= shim::LIMIT), // the band around the allocator limit: either verdict, judged exactly
     }
     let len0 = s.t.len();
     let cap0 = s.t.capacity();
@@ -451,7 +452,7 @@ pub fn sizes_reserve(kind: u8, fam: u8, n0: usize, cap: usize, ns: u8, len: usiz
     }
     check_unchanged(&s.a, &s.ma, &sa);
     check_unchanged(&s.b, &s.mb, &sb);
-    if class == 1 || (class == 2 && ok) {
+    if class == 1 || (class >= 2 && ok) {
         // granted with a symbolic capacity: drop without reading content through that block
         let St { t, a, b, .. } = s;
         if tf {
@@ -476,24 +477,49 @@ pub fn sizes_reserve(kind: u8, fam: u8, n0: usize, cap: usize, ns: u8, len: usiz
     }
 }
 
-/// extend() driven by an iterator with a solver-chosen size_hint lower bound and <= 1 item.
-pub fn sizes_extend(kind: u8, fam: u8, n0: usize, cap: usize, ns: u8, len: usize, la: usize, lb: usize, tgt_clone: bool, tf: bool) {
+/// extend() driven by an iterator with a size_hint lower bound `lo` and <= 1 item.
+/// `class` 0: `lo` is the literal `lit` (0/1 items, any char); 1: 40 < lo <= 2^40-64 symbolic, the
+/// iterator is empty (the speculative reserve is granted; nothing is written into the symbolic-size
+/// block); 2: lo > 2^40 symbolic (the speculative reserve fails and is ignored by design), 0/1 items.
+pub fn sizes_extend(kind: u8, fam: u8, n0: usize, cap: usize, ns: u8, len: usize, la: usize, lb: usize, tgt_clone: bool, class: u8, lit: usize, tf: bool) {
     let mut s = build(kind, fam, n0, cap, ns, len, la, lb, tgt_clone);
     let sa = see(&s.a);
     let sb = see(&s.b);
-    let lo: usize = kani::any();
-    let has: bool = kani::any();
+    let lo: usize = if class == 0 { lit } else { kani::any() };
+    match class {
+        1 => kani::assume(lo > 40 && lo <= shim::LIMIT - 64),
+        2 => kani::assume(lo > shim::LIMIT),
+        _ => {}
+    }
+    let has: bool = if class == 1 { false } else { kani::any() };
     let c = any_char();
+    let len0 = s.t.len();
     s.t.extend(ops::Hint { lo, item: if has { Some(c.c) } else { None } });
     if has {
         s.m.push_bytes(&c.bytes[..c.w]);
     }
-    check_handle(&s.t, &s.m);
     check_unchanged(&s.a, &s.ma, &sa);
     check_unchanged(&s.b, &s.mb, &sb);
-    check_live_blocks(&s);
     kani::cover!(lo > (1 << 57), "size hint beyond the 56-bit limit");
-    epilogue(s, tf);
+    if class == 1 {
+        assert!(s.t.len() == len0 && s.t.capacity() >= len0 + lo, "[C06] extend with a size hint: len/capacity");
+        let St { t, a, b, .. } = s;
+        if tf {
+            drop(t);
+            drop(a);
+            drop(b);
+        } else {
+            drop(b);
+            drop(a);
+            drop(t);
+        }
+        assert!(shim::live() == 0, "[MEM] a block is still allocated after every handle was dropped (leak)");
+        kani::cover!(true, "end of harness reached");
+    } else {
+        check_handle(&s.t, &s.m);
+        check_live_blocks(&s);
+        epilogue(s, tf);
+    }
 }
 
 /// collect() from an iterator with a solver-chosen size_hint lower bound and <= 1 item.
